@@ -688,7 +688,10 @@ def sbs_options(rng, line_numbers=None, width=None):
     elif r < 0.3:
         lfmt, rfmt = rng.choice([('{nm:>3}┊', '{np:>3}┊'), ('[{nm:<5}]', '[{np:<5}]'), ('{nm}:', '{np}:'),
                                  ('{nm:^6}⋮', '{np:^6}│'), ('漢{nm:^4}│', '漢{np:^4}│'), ('{nm:>3}：', '{np:>3}：'),
-                                 ('{nm:^4.4}│', '{np:^4.4}│'), ('{nm:>3.2}┊', '{np:>3.2}┊')])     # (a precision does not apply to numbers)
+                                 ('{nm:^4.4}│', '{np:^4.4}│'), ('{nm:>3.2}┊', '{np:>3.2}┊'),     # (a precision does not apply to numbers)
+                                 # gutters of unequal width: the two panels are equally wide, their text areas are not
+                                 ('{nm:^4}│', '{nm:^4}⋮{np:^4}│'), ('{nm:^4}⋮{np:^4}│', '{np:^3}│'), ('{nm:>2}|', '{np:>9}|'),
+                                 ('{nm:^4}│', '{nm:^4}⋮{np:^4}│'), ('{nm:>2}|', '{np:>12}|')])
         cls.append('ln-fmt')
     o['--line-numbers-left-format'] = lfmt
     o['--line-numbers-right-format'] = rfmt
